@@ -84,6 +84,13 @@ SPECS["C14"] = {
          "quick": {"params": {"N": n, "ALPHA": 1}, "unwind": 30, "wall_s": 300, "max_steps": 3000000} if n <= 5 else None,
          "thorough": {"params": {"N": n, "ALPHA": 1}, "unwind": 30, "wall_s": 1500, "max_steps": 3000000}}
         for n in (5, 7)
+    ] + [
+        {"name": "H2-segments-%d" % k, "pkg": "interpreter", "files": ["interpreter/c14.go", "interpreter/c07.go", "interpreter/common.go"], "fn": "VerifC14Segments",
+         "what": "literals of %d segments out of 7 (text, {{a}}, {{b}}, {{c()}}, stray markers) x a, b, c() holding group-like text (7x7x4): one-pass result, c() called once per own group" % k,
+         "reach": ["before-eval", "after-eval"],
+         "quick": {"params": {"K": k}, "unwind": 30, "wall_s": 600, "max_steps": 3000000} if k <= 3 else None,
+         "thorough": {"params": {"K": k}, "unwind": 30, "wall_s": 3000, "max_steps": 3000000}}
+        for k in (2, 3, 4)
     ],
     "assumptions": ["alphabet {'{','}','a'}", "variable a bound to the string \"{{a}}\""],
     "outside": ["longer literals", "other bytes / escape sequences (lexer-level unquoting is covered under C08/C18 harnesses)"],
@@ -127,6 +134,14 @@ SPECS["C06"] = {
         {"name": "H1-prefix-operators", "pkg": "interpreter", "files": _C06, "fn": "VerifC06PrefixOperators",
          "what": "-x, +x, not x for 9 operand kinds", "reach": ["before-eval", "after-eval"],
          "quick": {"unwind": 30, "wall_s": 300}, "thorough": {"unwind": 30, "wall_s": 600}},
+        {"name": "H8-sink-body", "pkg": "interpreter", "files": _C06, "fn": "VerifC06SinkBody",
+         "what": "20 sink bodies (plain Go errors, runtime errors, return, raise) x 9 value kinds from the event state, through ECAL addEventAndWait in try; errors read and printed; a later event still processed",
+         "reach": ["before-eval", "after-eval"],
+         "quick": {"unwind": 30, "wall_s": 600, "max_steps": 3000000}, "thorough": {"unwind": 30, "wall_s": 1500, "max_steps": 3000000}},
+        {"name": "H8-sink-body-nested", "pkg": "interpreter", "files": _C06, "fn": "VerifC06SinkBody",
+         "what": "same with addEventAndWait called from inside another sink (pool worker), 2 workers", "reach": ["before-eval", "after-eval"],
+         "quick": {"params": {"NESTED": 1, "WORKERS": 2}, "unwind": 30, "wall_s": 600, "max_steps": 3000000},
+         "thorough": {"params": {"NESTED": 1, "WORKERS": 2}, "unwind": 30, "wall_s": 1500, "max_steps": 3000000}},
     ],
     "assumptions": ["strings of 1 symbolic byte; lists/maps of the listed shapes"],
     "outside": ["unbounded recursion", "stdlib functions via the reflection bridge (C19)", "sleep/cron/pulse/now/rand builtins"],
@@ -311,6 +326,12 @@ SPECS["C07"] = {
          "quick": {"params": {"N": n}, "unwind": 16, "wall_s": 600} if n <= 3 else None,
          "thorough": {"params": {"N": n}, "unwind": 16, "wall_s": 3000}}
         for n in (2, 3, 4)
+    ] + [
+        {"name": "H5-error-tail", "pkg": "interpreter", "files": _C07, "fn": "VerifC07ErrorTail",
+         "what": "first token of T texts, 0..M filler tokens (beyond the look-ahead buffer), 9 lexical-error/unfinished tails, 4 trailers: nothing left running",
+         "reach": ["parsed"],
+         "quick": {"params": {"T": 12, "M": 6}, "unwind": 40, "wall_s": 600},
+         "thorough": {"params": {"T": 38, "M": 10}, "unwind": 40, "wall_s": 3000}},
     ],
     "assumptions": ["token texts separated by one blank", "ASCII bytes in the lexer harness"],
     "outside": ["sequences longer than K", "trees reachable only with more tokens", "non-ASCII input bytes"],
@@ -435,6 +456,9 @@ SPECS["C08"] = {
          "quick": {"unwind": 60, "wall_s": 900}, "thorough": {"unwind": 60, "wall_s": 1800}},
         {"name": "H3-statements", "pkg": "parser", "files": ["parser/c08.go"], "fn": "VerifC08Statements",
          "what": "37 statement templates x 4 nestings", "reach": ["parsed", "reparsed"],
+         "quick": {"unwind": 60, "wall_s": 900}, "thorough": {"unwind": 60, "wall_s": 1800}},
+        {"name": "H4-lenient-forms", "pkg": "parser", "files": ["parser/c08.go"], "fn": "VerifC08LenientForms",
+         "what": "33 lenient source forms (optional/dangling separators, parentheses, one-line blocks) and all except-clause shapes (0..2 names x comma/blank x 4 binders)", "reach": ["parsed", "reparsed"],
          "quick": {"unwind": 60, "wall_s": 900}, "thorough": {"unwind": 60, "wall_s": 1800}},
     ] + [
         {"name": "H2-strings-%d" % n, "pkg": "parser", "files": ["parser/c08.go"], "fn": "VerifC08Strings",
